@@ -176,7 +176,15 @@ class History:
             err = du.apply_edit(self.circ, ed)
             self.finding = ("group:no-registers:KeyError", err)
             return "skipped"
-        err = du.apply_edit(self.circ, ed)
+        if ed[0] == "C":
+            # continue on a deep copy (CircuitBase.copy): everything observable must be preserved
+            try:
+                self.circ = self.circ.copy()
+                err = None
+            except Exception as e:  # noqa: BLE001
+                err = du.err_name(e)
+        else:
+            err = du.apply_edit(self.circ, ed)
         p, pr = du.canon_parts(self.circ)
         self.tokens.append(du.edit_token(ed))
         self.errs.append(err or "-")
@@ -204,7 +212,11 @@ def violates(init, tokens, key):
     for t in tokens:
         ed = du.parse_edit(t)
         before = reg_counts(circ)
-        err = du.apply_edit(circ, ed)
+        if ed[0] == "C":
+            circ = circ.copy()
+            err = None
+        else:
+            err = du.apply_edit(circ, ed)
         if err == "key" and ed[0] == "I":
             return False
         if any(k == key for k, _ in oracle_state(circ, before, ed, err)):
@@ -542,7 +554,11 @@ def replay(ctx, data):
     for i, t in enumerate(inp["edits"]):
         ed = du.parse_edit(t)
         before = reg_counts(circ)
-        err = du.apply_edit(circ, ed)
+        if ed[0] == "C":
+            circ = circ.copy()
+            err = None
+        else:
+            err = du.apply_edit(circ, ed)
         bad = oracle_state(circ, before, ed, err)
         if err and (key.startswith("api:") or key.startswith("group:")) and i == len(inp["edits"]) - 1:
             bad.append((key, f"{t} raises {err}"))
